@@ -1,6 +1,6 @@
 """C05 — flattening: no re-entrant call under the state lock (DESIGN §3 C05)."""
 from ..core import (Finding, lock_scopes, node_desc, SUBSCRIBE, FN_CALLS, recv_class)
-from ..expr import access_path
+from ..expr import access_path, strip
 from .. import roles
 
 ID = 'C05'
@@ -21,7 +21,38 @@ CONTROLS = ['F1|<verif_controls::LockedFlatten<O, Item> as Observer>::next', 'F2
 def check(cx):
     _env_wrapped = True
     from . import c03
-    return _check_own(cx) + c03.envelopes(cx, ID)
+    return _check_own(cx) + f8(cx) + c03.envelopes(cx, ID)
+
+
+def f8(cx):
+    """'without panicking or blocking': the flattening operators register every inner subscription with their composite from INSIDE a
+    notification of a source whose own handle is already in that composite (the outer's next(), a completing inner's complete()),
+    and that handle's cell is occupied for the duration. MultiSubscription::append therefore only touches its list: it never asks a
+    member it already holds whether it is closed (RefCell: BorrowMutError, Mutex / task handle: self-deadlock)."""
+    from ..core import IS_CLOSED_NAMES
+    F = cx.facts
+    res = []
+    if cx.control:
+        return res
+    n = 0
+    for im in F.impls.values():
+        if im.get('trait') or roles.impl_tag(cx, im) not in ('subscription::MultiSubscription', 'subscription::MultiSubscriptionThreads'):
+            continue
+        for f in im['fns']:
+            fn = F.fns.get(f['key'])
+            if fn is None or f['n'] != 'append':
+                continue
+            n += 1
+            g = cx.graph(fn['key'])
+            bad = [x for x in g.nodes if x['kind'] in ('call', 'enter') and x['name'] in IS_CLOSED_NAMES and x['args'] and
+                   not (strip(x['args'][0])[0] == 'arg' and strip(x['args'][0])[1] == 1)]
+            res.append(Finding(ID, 'F8', cx.label(fn), not bad,
+                               'append() only touches the list' if not bad else
+                               'append() asks members of the composite whether they are closed: it is called from inside a notification of a source whose handle is one of them (its cell is borrowed / locked for the duration) — flat_map/merge_all/concat_all panic (local) or dead-lock (threads) once that happens',
+                               g.loc(bad[0]) if bad else fn['span'], [node_desc(g, x) for x in bad[:2]]))
+    if n < 2:
+        res.append(Finding(ID, 'F8', 'floor', False, 'MultiSubscription::append not found (%d)' % n))
+    return res
 
 
 def _check_own(cx):
